@@ -68,6 +68,8 @@ def gen_cases(tier, seed):
         lv = SH.leaves(tree)
         sites = []
         for leaf in lv:
+            if not leaf[3]:
+                sites.append([(leaf[1], 'constmix')])
             sites.append([(leaf[1], 'reject')])
             sites.append([(leaf[1], 'poison' if leaf[3] else 'fail')])
         ens = tree if tree[0] == 'Ens' else next((ch for ch in tree[1] if ch[0] == 'Ens'), None) if tree[0] == 'Seq' else None
@@ -215,6 +217,9 @@ def run_case(case):
             # the class a failing call raises varies with the request (None = the harness's own Boom)
             cls = FAIL_CLASSES[(c * 7 + s) % len(FAIL_CLASSES)]
             plan = tuple((tag, act, cls if act == 'fail' else None) for tag, act in case['site']) if s in fidx else ()
+            if plan and case['site'][0][1] == 'constmix':
+                # failures of equal content (same class, same message) from two different sites of the same worker
+                plan = ((case['site'][0][0], 'reject' if (c + s) % 2 else 'fail', 'const'),)
             toks.append(('tok', c, s, plan))
             for tag, act, _ in plan:
                 if act == 'poison':
@@ -266,6 +271,7 @@ def run_case(case):
 
     from mpservice.multiprocessing.remote_exception import EnsembleError, RemoteException, is_remote_exception
 
+    const_seen = {}
     data_crossed_process = False
     if tree[0] == 'Seq':
         seen_ens = False
@@ -318,6 +324,23 @@ def run_case(case):
                 obs['failed_requests'] += 1
             else:
                 obs['ok_requests'] += 1
+            const = next(((a, arg) for _, a, arg in t[3] if arg == 'const'), None)
+            if const and excs:
+                # equal-content failures: each request's error still names ITS failure site, and no two requests share an exception object
+                from mpservice.multiprocessing.remote_exception import get_remote_traceback as _grt
+
+                e0 = excs[0]
+                txt = (e0.tb if isinstance(e0, RemoteException) else (_grt(e0) if is_remote_exception(e0) else ''.join(traceback.format_exception(type(e0), e0, e0.__traceback__)))) or ''
+                want, other = ('preprocess-const', 'call-const') if const[0] == 'reject' else ('call-const', 'preprocess-const')
+                obs['equal_content_failures'] = obs.get('equal_content_failures', 0) + 1
+                if other in txt and want not in txt:
+                    viol.append({'mech': 'failalone/traceback-of-another-failure', 'msg': f'request {i} failed in {want.split("-")[0]} but its error carries the traceback of a failure in {other.split("-")[0]} (another request\'s)'})
+                    break
+                key = id(e0.exc if isinstance(e0, RemoteException) else e0)
+                if key in const_seen and const_seen[key] != i and SH.has_process(tree):
+                    viol.append({'mech': 'failalone/exception-object-shared', 'msg': f'requests {const_seen[key]} and {i} were handed the very same exception object'})
+                    break
+                const_seen[key] = i
             for e in excs:
                 obs['tracebacks_checked'] += 1
                 if isinstance(e, RemoteException) or is_remote_exception(e):
